@@ -27,7 +27,8 @@ func (eng) Rule() string {
 		"handler bindings that veto and issue follow-up mutations (queued) and checks, 1-8 goroutines each issuing 5-40 ops from " +
 		"{add,remove,set,toggle,adderr,canadd,canremove}; yields at the queue schedule points; in a third of the cases 1-2 more tracers " +
 		"bound ahead of the recording ones leave mid-run (detach themselves from inside a callback, or are detached by another goroutine " +
-		"while their callback lingers). After quiescence the event log of " +
+		"while their callback lingers); a quarter of the cases have handlers that panic now and then (faulted transitions are judged for the " +
+		"order and count of their callbacks only); two machines made from one Opts.Tracers slice. After quiescence the event log of " +
 		"every tracer is judged: one Init->Start->(Finals)->End per transition, not interleaved, chain of times, time-after = " +
 		"Machine.Time sampled inside TransitionEnd, tracers agree, queued mutations announced. Evaluation = one transition of " +
 		"one tracer; distinct non-trivial = distinct (case, transition index) whose transition was queued behind another, auto, " +
